@@ -54,6 +54,9 @@ pub struct Model {
     pub list_unjudged: bool,
     /// keys whose bucket was damaged in a way the reference reader resolved (bookkeeping)
     pub damaged_buckets: u32,
+    /// keys that received a planted record with arbitrary integrity text: their lookups are
+    /// not judged by the model
+    pub unjudged_keys: std::collections::BTreeSet<String>,
     /// pure mode: never look at the disk (used when candidate serial orders are replayed
     /// after the fact); a successful write is taken to publish its data
     pub pure: bool,
@@ -116,6 +119,7 @@ impl Model {
             index_dir: false,
             list_unjudged: false,
             damaged_buckets: 0,
+            unjudged_keys: Default::default(),
             pure: false,
         }
     }
@@ -226,7 +230,24 @@ impl Model {
         if let Out::Hang = out {
             return Err(format!("{} did not return", step.op.name()));
         }
+        // lookups of a key holding a planted record: anything but a panic
+        let keyed = match &step.op {
+            Op::Read { key } | Op::Meta { key } | Op::IdxFind { key } | Op::Stream { by: By::Key(key), .. } | Op::Extract { by: By::Key(key), .. } => Some(*key),
+            _ => None,
+        };
+        if let Some(k) = keyed {
+            if self.unjudged_keys.contains(ctx.key(k)) {
+                return Ok(());
+            }
+        }
         match &step.op {
+            Op::PlantRecord { key, .. } => {
+                self.unjudged_keys.insert(ctx.key(*key).to_string());
+                self.index.entry(ctx.key(*key).to_string()).or_default().bucket_exists = true;
+                self.index_dir = true;
+                self.list_unjudged = true;
+                Ok(())
+            }
             Op::Write(s) => self.step_write(ctx, s, out, t0, t1),
             Op::LinkTo(l) => self.step_link(ctx, l, out, t0, t1),
             Op::Read { key } => {
@@ -409,6 +430,7 @@ impl Model {
                 self.index_dir = true;
                 Ok(())
             }
+            Op::Chdir { .. } => Ok(()),
             Op::ForeignRecord { bucket_of, .. } => {
                 let k = ctx.key(*bucket_of).to_string();
                 self.index.entry(k).or_default().bucket_exists = true;
